@@ -1,6 +1,7 @@
 //! vnative <command> [args]      (seed for every random choice: env VERIF_SEED)
 //!   kernels all|<engine> <n>    (symbol, log_m) pairs through Engine::mul: all 65536 symbols x n values of log_m (65536 = exhaustive)
-//!   engines <n>                 every engine (naive, ssse3, avx2, default) vs NoSimd: n random configurations on encode / decode, a fixed list of small
+//!   engines <n> [part]          part (FAIL lines say `engines-<part>`): all (default) | codec (encode / decode level) | primitives (mul, fft/ifft, eval_poly)
+//!                               every engine (naive, ssse3, avx2, default) vs NoSimd: n random configurations on encode / decode, a fixed list of small
 //!                               configurations (2^odd decoder work areas) with a missing original, Engine::mul on multi-block buffers, eval_poly, random
 //!                               fft/ifft, and a deterministic fft/ifft sweep: sizes 2..128, pos 0/3, every small skew_delta + the table end, 1/2 blocks,
 //!                               truncated sizes (fft: only the specified shards are compared; ifft: truncated input zeroed) (bounded)
@@ -8,9 +9,12 @@
 //!   oneshot <n>                 n random valid and invalid sessions: one-shot encode()/decode() vs the streaming API, errors included; half of them
 //!                               through iterators that are not exact-size; fixed no-recovery sessions (surplus / duplicate / out-of-range originals)
 //!   linearity <n>               n random and structured cases on every engine: additivity, zero, scalar multiples (independent field arithmetic),
-//!                               all-zero second round on the same encoder object
-//!   histories <n>               n random multi-round histories on ONE reused object vs fresh objects, every codec layer: resets, implicit resets,
+//!                               all-zero second round on the same encoder object (FAIL linearity additivity|zero|scalar|second-round-zero)
+//!   histories <n> [mode]        n random multi-round histories on ONE reused object vs fresh objects, every codec layer: resets, implicit resets,
 //!                               moved work spaces, abandoned rounds, failing calls in between; results never depend on the past (bounded)
+//!                               mode (FAIL lines say `histories-<mode>`): all (default) | failed: one round on a fresh object with failing calls
+//!                               (a failed call changes nothing) | drop: same configuration, rounds separated only by the dropped result, accessors
+//!                               | sizes: rounds that change only shard_bytes by an explicit reset
 //!   alloc <n>                   n rounds / non-growing resets under a counting allocator: no shard-proportional allocation
 //!   roundtrip both <s> all      every subset with >= k members, every (k, r) with k + r <= s, high, low and default codec
 //!   kernels <engine>            exhaustive: every (symbol, log_m) pair through Engine::mul of the real engine, every lane
@@ -314,26 +318,37 @@ fn fft_case(es: &[(&'static str, Box<dyn Engine>)], init: &[[u8; 64]], cntm: usi
     Ok(es.len() as u64 - 1)
 }
 
-fn engines(n: usize) -> bool {
+/// part: all | codec (encode / decode level) | primitives (mul, fft / ifft, eval_poly); a FAIL line names the part
+fn engines(n: usize, part: &str) -> bool {
+    let mut cnt = 0u64;
+    if part != "primitives" { match engines_codec(n) { Ok(c) => cnt += c, Err(m) => { println!("FAIL engines-codec {}", m); return false; } } }
+    if part != "codec" { match engines_primitives(n) { Ok(c) => cnt += c, Err(m) => { println!("FAIL engines-primitives {}", m); return false; } } }
+    println!("OK engines{} {} comparisons (bounded)", if part == "codec" || part == "primitives" { format!("-{}", part) } else { String::new() }, cnt);
+    true
+}
+fn engines_codec(n: usize) -> Result<u64, String> {
     let mut rng = Rng::new(seed()); let mut cnt = 0u64;
-    macro_rules! tryf { ($e:expr) => { match $e { Ok(c) => cnt += c, Err(m) => { println!("FAIL engines {}", m); return false; } } } }
     for _ in 0..n {
         let k = 1 + rng.below(40); let r = 1 + rng.below(40); let sb = 2 * (1 + rng.below(100));
         let c = [Codec::High, Codec::Low, Codec::Default][rng.below(3)];
         if !codec_ok(c, k, r) { continue; }
-        tryf!(engines_cfg(&mut rng, c, k, r, sb, false));
+        cnt += engines_cfg(&mut rng, c, k, r, sb, false)?;
     }
     // small configurations, among them decoder work areas of 2^odd shards (final odd fft/ifft layer), with a missing original
     for (k, r) in [(3usize, 2usize), (2, 3), (7, 20), (30, 100), (40, 20), (5, 3), (60, 100)] { for c in [Codec::High, Codec::Low, Codec::Default] { for sb in [64usize, 130] {
-        if codec_ok(c, k, r) { tryf!(engines_cfg(&mut rng, c, k, r, sb, true)); }
+        if codec_ok(c, k, r) { cnt += engines_cfg(&mut rng, c, k, r, sb, true)?; }
     } } }
+    Ok(cnt)
+}
+fn engines_primitives(n: usize) -> Result<u64, String> {
+    let mut rng = Rng::new(seed() ^ 0x5052494D); let mut cnt = 0u64;
     let es = engine_list();
     // Engine::mul on multi-block buffers
     for t in 0..3 {
         let blocks = [rng.below(6), 2 + rng.below(4), 1 + rng.below(5)][t]; let buf = rand_blocks(&mut rng, blocks);
         for log_m in [rng.next() as u16, 0, 1, 65534, 65535] {
             let mut a = buf.clone(); es[0].1.mul(&mut a, log_m);
-            for (name, e) in &es[1..] { let mut b = buf.clone(); e.mul(&mut b, log_m); if a != b { println!("FAIL engines mul {} vs nosimd blocks={} log_m={}", name, buf.len(), log_m); return false; } cnt += 1; }
+            for (name, e) in &es[1..] { let mut b = buf.clone(); e.mul(&mut b, log_m); if a != b { return Err(format!("mul {} vs nosimd blocks={} log_m={}", name, buf.len(), log_m)); } cnt += 1; }
         }
     }
     // fft / ifft, deterministic sweep: every small size, aligned and unaligned position, every small skew_delta and the far end of the skew table, truncation
@@ -341,19 +356,18 @@ fn engines(n: usize) -> bool {
         let cntm = pos + size + 1; let init = rand_blocks(&mut rng, cntm * len);
         let mut deltas: Vec<usize> = (0..=2 * size + 8).collect(); deltas.push(32765); if 65535 >= pos + size { deltas.push(65535 - pos - size); }
         let mut ts = vec![1, size / 2 + 1, size]; ts.retain(|t| *t <= size); ts.sort(); ts.dedup();
-        for &delta in &deltas { if delta + size > 65536 { continue; } for inv in [false, true] { for &t in &ts { tryf!(fft_case(&es, &init, cntm, len, inv, pos, size, t, delta)); } } }
+        for &delta in &deltas { if delta + size > 65536 { continue; } for inv in [false, true] { for &t in &ts { cnt += fft_case(&es, &init, cntm, len, inv, pos, size, t, delta)?; } } }
     } } }
     // eval_poly and random fft / ifft
     for _ in 0..n.min(50) {
         let mut e0 = [0u16; 65536]; let t = 1 + rng.below(65536); for i in 0..t { e0[i] = (rng.next() & 1) as u16; }
         let mut a = e0; NoSimd::eval_poly(&mut a, t);
-        each_engine!(name, mk, { let mut b = e0; eval_poly_of(&mk, &mut b, t); if a != b { println!("FAIL engines eval_poly {} t={}", name, t); return false; } cnt += 1; });
+        each_engine!(name, mk, { let mut b = e0; eval_poly_of(&mk, &mut b, t); if a != b { return Err(format!("eval_poly {} t={}", name, t)); } cnt += 1; });
         let size = 1usize << rng.below(7); let pos = size * rng.below(4); let len = 1 + rng.below(3); let cntm = pos + size + rng.below(2); let delta = rng.below(65537 - size);
         let init = rand_blocks(&mut rng, cntm * len); let trunc = if rng.below(2) == 0 { size } else { 1 + rng.below(size) };
-        for inv in [false, true] { tryf!(fft_case(&es, &init, cntm, len, inv, pos, size, trunc, delta)); }
+        for inv in [false, true] { cnt += fft_case(&es, &init, cntm, len, inv, pos, size, trunc, delta)?; }
     }
-    println!("OK engines {} comparisons (bounded)", cnt);
-    true
+    Ok(cnt)
 }
 fn eval_poly_of<E: Engine, F: Fn() -> E>(_mk: &F, e: &mut [u16; 65536], t: usize) { E::eval_poly(e, t) }
 
@@ -527,14 +541,14 @@ fn linearity(n: usize, f: &Field) -> bool {
             if z.iter().any(|s| s.iter().any(|&v| v != 0)) { println!("FAIL linearity zero {}", at); return false; }
             let rs = enc_with(c, mk(), k, r, &sa).unwrap();
             for j in 0..r { if rs[j] != scale(&ra[j]) { println!("FAIL linearity scalar {} g={} recovery={}", at, g, j); return false; } }
-            if !second_round_zero(&mut rng, c, mk(), k, r, sb) { println!("FAIL linearity zero in the second round on the same encoder {}", at); return false; }
+            if !second_round_zero(&mut rng, c, mk(), k, r, sb) { println!("FAIL linearity second-round-zero {}", at); return false; }
             cnt += 4;
         });
     }
     // second round on the same encoder object, small configurations with a padded first chunk
     for (k, r) in [(3usize, 4usize), (5, 8), (3, 3), (5, 7), (1, 1), (2, 3), (9, 5)] { for c in [Codec::Default, Codec::High, Codec::Low] { for sb in [64usize, 128, 2, 66] {
         if !codec_ok(c, k, r) { continue; }
-        each_engine!(name, mk, { if !second_round_zero(&mut rng, c, mk(), k, r, sb) { println!("FAIL linearity zero in the second round on the same encoder {} {:?} k={} r={} sb={}", name, c, k, r, sb); return false; } cnt += 1; });
+        each_engine!(name, mk, { if !second_round_zero(&mut rng, c, mk(), k, r, sb) { println!("FAIL linearity second-round-zero {} {:?} k={} r={} sb={}", name, c, k, r, sb); return false; } cnt += 1; });
     } } }
     println!("OK linearity {} checks (bounded)", cnt);
     true
@@ -622,14 +636,15 @@ impl Enc {
     }
     fn add(&mut self, s: &[u8]) -> Result<(), Error> { enc_do!(self, x => x.add_original_shard(s)) }
     fn reset(&mut self, (k, r, sb): Cfg) -> Result<(), Error> { enc_do!(self, x => x.reset(k, r, sb)) }
-    /// recovery shards by the iterator; the flag says that recovery(i) agrees with it and is None from recovery_count on
-    fn encode(&mut self) -> Result<(Vec<Vec<u8>>, bool), Error> { enc_do!(self, x => { let res = x.encode()?; let v: Vec<Vec<u8>> = res.recovery_iter().map(|s| s.to_vec()).collect();
-        let acc = (0..v.len()).all(|i| res.recovery(i) == Some(&v[i][..])) && [v.len(), v.len() + 1, usize::MAX, usize::MAX - 1].iter().all(|&i| res.recovery(i).is_none()); Ok((v, acc)) }) }
+    /// recovery shards by the iterator; the flag says that recovery(i) agrees with it and is None from recovery_count on, and that the iterator stays at None
+    fn encode(&mut self) -> Result<(Vec<Vec<u8>>, bool), Error> { enc_do!(self, x => { let res = x.encode()?; let mut it = res.recovery_iter(); let mut v: Vec<Vec<u8>> = vec![];
+        while let Some(s) = it.next() { v.push(s.to_vec()); } let fused = (0..3).all(|_| it.next().is_none());
+        let acc = fused && (0..v.len()).all(|i| res.recovery(i) == Some(&v[i][..])) && [v.len(), v.len() + 1, usize::MAX, usize::MAX - 1].iter().all(|&i| res.recovery(i).is_none()); Ok((v, acc)) }) }
     fn into_work(self) -> EncoderWork { match self { Enc::Rs(_) => unreachable!(), Enc::Def(x) => x.into_parts().1, Enc::High(x) => x.into_parts().1, Enc::Low(x) => x.into_parts().1 } }
 }
 
 #[derive(PartialEq, Debug)]
-struct DecOut { iter: Vec<(usize, Vec<u8>)>, probe: Vec<(usize, Option<Vec<u8>>)> }
+struct DecOut { iter: Vec<(usize, Vec<u8>)>, fused: bool, probe: Vec<(usize, Option<Vec<u8>>)> }
 enum Dec { Rs(ReedSolomonDecoder), Def(DefaultRateDecoder<NoSimd>), High(HighRateDecoder<NoSimd>), Low(LowRateDecoder<NoSimd>) }
 macro_rules! dec_do { ($s:expr, $x:ident => $b:expr) => { match $s { Dec::Rs($x) => $b, Dec::Def($x) => $b, Dec::High($x) => $b, Dec::Low($x) => $b } } }
 impl Dec {
@@ -640,7 +655,8 @@ impl Dec {
     fn add(&mut self, rec: bool, i: usize, s: &[u8]) -> Result<(), Error> { dec_do!(self, x => if rec { x.add_recovery_shard(i, s) } else { x.add_original_shard(i, s) }) }
     fn reset(&mut self, (k, r, sb): Cfg) -> Result<(), Error> { dec_do!(self, x => x.reset(k, r, sb)) }
     fn decode(&mut self, probes: &[usize]) -> Result<DecOut, Error> { dec_do!(self, x => { let res = x.decode()?;
-        Ok(DecOut { iter: res.restored_original_iter().map(|(i, s)| (i, s.to_vec())).collect(), probe: probes.iter().map(|&i| (i, res.restored_original(i).map(|s| s.to_vec()))).collect() }) }) }
+        let mut it = res.restored_original_iter(); let mut iter = vec![]; while let Some((i, s)) = it.next() { iter.push((i, s.to_vec())); }
+        Ok(DecOut { iter, fused: (0..3).all(|_| it.next().is_none()), probe: probes.iter().map(|&i| (i, res.restored_original(i).map(|s| s.to_vec()))).collect() }) }) }
     fn into_work(self) -> DecoderWork { match self { Dec::Rs(_) => unreachable!(), Dec::Def(x) => x.into_parts().1, Dec::High(x) => x.into_parts().1, Dec::Low(x) => x.into_parts().1 } }
 }
 
@@ -661,19 +677,25 @@ fn wrong_len(rng: &mut Rng, sb: usize) -> usize { [sb + 2, if sb > 2 { sb - 2 } 
 /// a reset that must fail: unsupported counts, or supported counts (same, swapped, other) with an odd / zero shard size
 fn bad_reset(rng: &mut Rng, (k, r, sb): Cfg) -> (Cfg, Error) {
     if rng.below(2) == 0 { let (k2, r2) = [(0, r), (k, 0), (0, 0), (65536, r), (40000, 40000), (k, 65536)][rng.below(6)]; ((k2, r2, sb), Error::UnsupportedShardCount { original_count: k2, recovery_count: r2 }) }
-    else { let (k2, r2) = [(k, r), (r, k), (2, 3), (3, 2)][rng.below(4)]; let s2 = [0, 1, sb + 1, 63, 65][rng.below(5)]; ((k2, r2, s2), Error::InvalidShardSize { shard_bytes: s2 }) }
+    else { let (k2, r2) = [(k, r), (r, k), (2, 3), (3, 2)][rng.below(4)]; let s2 = [0, 0, 1, sb + 1, 63, 65][rng.below(6)]; ((k2, r2, s2), Error::InvalidShardSize { shard_bytes: s2 }) }
 }
 macro_rules! expect_err { ($log:expr, $what:expr, $got:expr, $want:expr) => {{ let (g, w) = ($got, $want); $log.push(format!("!{}", $what)); if g != Some(w) { return Err(format!("{} returned {:?}, expected Err({:?})", $what, g.map(Err::<(), Error>).unwrap_or(Ok(())), w)); } }} }
 
+/// what a round may contain: failing calls (1-in-`inject` chance before every call, 0 = never; force: at least one), an abandoned round,
+/// the same shards again after the result was dropped, the top indexes among the given shards
+#[derive(Clone, Copy)]
+struct HOpts { inject: usize, force: bool, abandon: bool, again: bool, top: bool }
+
 /// one encoder round on the reused object; Ok(false): abandoned without encode
-fn enc_round(rng: &mut Rng, log: &mut Vec<String>, obj: &mut Enc, kind: Kind, cfg: Cfg) -> Result<bool, String> {
+fn enc_round(rng: &mut Rng, log: &mut Vec<String>, obj: &mut Enc, kind: Kind, cfg: Cfg, o: HOpts) -> Result<bool, String> {
     let (k, r, sb) = cfg;
     let data = rand_data(rng, k, sb);
-    let abandon = if rng.below(8) == 0 { Some(rng.below(k + 1)) } else { None };
+    let abandon = if o.abandon && rng.below(8) == 0 { Some(rng.below(k + 1)) } else { None };
+    let mut inj = 0;
     for i in 0..=k {
         if abandon == Some(i) { log.push(format!("add*{} abandon", i)); return Ok(false); }
-        // calls that must fail and must change nothing
-        while rng.below(6) == 0 { match rng.below(4) {
+        // calls that must fail and must change nothing (each is followed by at least the next add / the encode)
+        while (o.inject > 0 && rng.below(o.inject) == 0) || (o.force && i == k && inj == 0) { inj += 1; match rng.below(4) {
             0 => { let l = wrong_len(rng, sb); let want = if i == k { Error::TooManyOriginalShards { original_count: k } } else { Error::DifferentShardSize { shard_bytes: sb, got: l } };
                 expect_err!(log, format!("add#{}(len {})", i, l), obj.add(&rng.bytes(l)).err(), want); }
             1 if i == k => expect_err!(log, format!("add#{}", i), obj.add(&rng.bytes(sb)).err(), Error::TooManyOriginalShards { original_count: k }),
@@ -689,6 +711,7 @@ fn enc_round(rng: &mut Rng, log: &mut Vec<String>, obj: &mut Enc, kind: Kind, cf
     for d in &data { fresh.add(d).map_err(|e| format!("fresh encoder add {:?}", e))?; }
     let (want, _) = fresh.encode().map_err(|e| format!("fresh encoder encode {:?}", e))?;
     if got.len() != r || want.len() != r { return Err(format!("{} recovery shards, a fresh encoder gives {}, recovery_count is {}", got.len(), want.len(), r)); }
+    if let Some(j) = (0..r).find(|&j| got[j].len() != sb) { return Err(format!("recovery shard {} has {} bytes, shard_bytes is {}", j, got[j].len(), sb)); }
     for j in 0..r { if got[j] != want[j] { let t = (0..got[j].len().min(want[j].len())).find(|&t| got[j][t] != want[j][t]);
         return Err(format!("recovery shard {} differs from a fresh encoder's (lengths {} / {}, first differing byte {:?})", j, got[j].len(), want[j].len(), t)); } }
     Ok(true)
@@ -697,6 +720,7 @@ fn enc_round(rng: &mut Rng, log: &mut Vec<String>, obj: &mut Enc, kind: Kind, cf
 fn check_dec(out: &DecOut, data: &[Vec<u8>], missing: &[usize], what: &str) -> Result<(), String> {
     let idx: Vec<usize> = out.iter.iter().map(|x| x.0).collect();
     if idx != missing { return Err(format!("{}: restored indexes {:?}, expected {:?}", what, idx, missing)); }
+    if !out.fused { return Err(format!("{}: restored_original_iter() yields Some again after its end", what)); }
     for (i, s) in &out.iter { if *s != data[*i] { return Err(format!("{}: restored original {} has wrong bytes (length {}, expected {})", what, i, s.len(), data[*i].len())); } }
     for (i, s) in &out.probe { let want = if missing.contains(i) { Some(&data[*i]) } else { None };
         if s.as_ref() != want { return Err(format!("{}: restored_original({}) is {}, expected {}", what, i, if s.is_some() { "Some(..)" } else { "None" }, if want.is_some() { "Some(original)" } else { "None" })); } }
@@ -704,29 +728,31 @@ fn check_dec(out: &DecOut, data: &[Vec<u8>], missing: &[usize], what: &str) -> R
 }
 
 /// one decoder round on the reused object; Ok(false): abandoned without decode
-fn dec_round(rng: &mut Rng, log: &mut Vec<String>, obj: &mut Dec, kind: Kind, cfg: Cfg) -> Result<bool, String> {
+fn dec_round(rng: &mut Rng, log: &mut Vec<String>, obj: &mut Dec, kind: Kind, cfg: Cfg, o: HOpts) -> Result<bool, String> {
     let (k, r, sb) = cfg;
     let data = rand_data(rng, k, sb);
     let rec = enc_with(kind_codec(kind), NoSimd::new(), k, r, &data).map_err(|e| format!("reference encode {:?}", e))?;
     // a random sufficient subset in random order, the top indexes likely among it
     let lo = k.saturating_sub(r); let go = match rng.below(6) { 0 => k, 1 => lo, _ => lo + rng.below(k - lo + 1) };
-    let need = k - go; let gr = if rng.below(2) == 0 { need } else { need + rng.below(r - need + 1) };
+    let go = if o.top { go.max(1) } else { go };
+    let need = k - go; let gr = if rng.below(2) == 0 { need } else { need + rng.below(r - need + 1) }; let gr = if o.top { gr.max(1) } else { gr };
     let mut oi: Vec<usize> = (0..k).collect(); shuffle(rng, &mut oi); let mut ri: Vec<usize> = (0..r).collect(); shuffle(rng, &mut ri);
-    if rng.below(2) == 0 { let p = oi.iter().position(|&i| i == k - 1).unwrap(); oi.swap(0, p); }
-    if rng.below(2) == 0 { let p = ri.iter().position(|&j| j == r - 1).unwrap(); ri.swap(0, p); }
+    if o.top || rng.below(2) == 0 { let p = oi.iter().position(|&i| i == k - 1).unwrap(); oi.swap(0, p); }
+    if o.top || rng.below(2) == 0 { let p = ri.iter().position(|&j| j == r - 1).unwrap(); ri.swap(0, p); }
     let mut items: Vec<(bool, usize)> = oi[..go].iter().map(|&i| (false, i)).chain(ri[..gr].iter().map(|&j| (true, j))).collect(); shuffle(rng, &mut items);
     let missing: Vec<usize> = (0..k).filter(|i| !oi[..go].contains(i)).collect();
     let shard = |it: (bool, usize)| if it.0 { &rec[it.1] } else { &data[it.1] };
     let show = |it: (bool, usize)| format!("{}{}", if it.0 { "r" } else { "o" }, it.1);
     let big = [k, k + 1, k + 7, k.next_power_of_two(), r.next_power_of_two() + k, usize::MAX, usize::MAX - 1, usize::MAX - k, usize::MAX - r.next_power_of_two() + 1, usize::MAX / 2 + 1];
     let probes: Vec<usize> = (0..k).chain(big.iter().copied().filter(|&i| i >= k)).collect();
-    let abandon = if rng.below(8) == 0 { Some(rng.below(items.len() + 1)) } else { None };
+    let abandon = if o.abandon && rng.below(8) == 0 { Some(rng.below(items.len() + 1)) } else { None };
+    let mut inj = 0;
     for p in 0..=items.len() {
         if abandon == Some(p) { log.push(format!("add[{}] abandon", items[..p].iter().map(|&x| show(x)).collect::<Vec<_>>().join(","))); return Ok(false); }
-        // calls that must fail and must change nothing
-        while rng.below(5) == 0 { match rng.below(5) {
-            0 => { // wrong length on an index that has not been added (its correct add may follow later)
-                let rc = rng.below(2) == 0; let n = if rc { r } else { k }; let i = rng.below(n);
+        // calls that must fail and must change nothing (each is followed by at least the next add / the decode)
+        while (o.inject > 0 && rng.below(o.inject) == 0) || (o.force && p == items.len() && inj == 0) { let before = log.len(); match rng.below(5) {
+            0 => { // wrong length on an index that has not been added (often one whose correct add follows later)
+                let (rc, i) = if p < items.len() && rng.below(2) == 0 { items[p + rng.below(items.len() - p)] } else { let rc = rng.below(2) == 0; (rc, rng.below(if rc { r } else { k })) };
                 if !items[..p].contains(&(rc, i)) { let l = wrong_len(rng, sb);
                     expect_err!(log, format!("add {}(len {})", show((rc, i)), l), obj.add(rc, i, &rng.bytes(l)).err(), Error::DifferentShardSize { shard_bytes: sb, got: l }); } }
             1 if p > 0 => { let it = items[rng.below(p)]; let l = if rng.below(3) == 0 { wrong_len(rng, sb) } else { sb }; let s = if rng.below(2) == 0 && l == sb { shard(it).clone() } else { rng.bytes(l) };
@@ -738,7 +764,7 @@ fn dec_round(rng: &mut Rng, log: &mut Vec<String>, obj: &mut Dec, kind: Kind, cf
             3 if p < k => { let oc = items[..p].iter().filter(|x| !x.0).count();
                 expect_err!(log, format!("decode@{}", p), obj.decode(&probes).err(), Error::NotEnoughShards { original_count: k, original_received_count: oc, recovery_received_count: p - oc }); }
             _ => { let (c2, want) = bad_reset(rng, cfg); expect_err!(log, format!("reset{:?}@{}", c2, p), obj.reset(c2).err(), want); }
-        } }
+        } if log.len() > before { inj += 1; } }
         if p < items.len() { let it = items[p]; obj.add(it.0, it.1, shard(it)).map_err(|e| format!("add {} (after {:?}) returned {:?}", show(it), items[..p].iter().map(|&x| show(x)).collect::<Vec<_>>(), e))?; }
     }
     log.push(format!("add[{}] decode", items.iter().map(|&x| show(x)).collect::<Vec<_>>().join(",")));
@@ -748,6 +774,7 @@ fn dec_round(rng: &mut Rng, log: &mut Vec<String>, obj: &mut Dec, kind: Kind, cf
     for &it in &items { fresh.add(it.0, it.1, shard(it)).map_err(|e| format!("fresh decoder add {:?}", e))?; }
     let want = fresh.decode(&probes).map_err(|e| format!("fresh decoder decode {:?}", e))?;
     if got != want { return Err("result differs from a fresh decoder's".into()); }
+    if !o.again { return Ok(true); }
     // the result has been dropped: the same shards are accepted again and give the same result
     shuffle(rng, &mut items);
     log.push("again".into());
@@ -757,47 +784,73 @@ fn dec_round(rng: &mut Rng, log: &mut Vec<String>, obj: &mut Dec, kind: Kind, cf
     Ok(true)
 }
 
-/// the configuration switch between two rounds: explicit reset, nothing (the dropped result has reset the object), or a move of the work space into another codec type
-macro_rules! history_of { ($T:ident, $round:ident, $rng:expr, $kind0:expr, $log:expr, $rounds:expr) => {{
-    let (rng, log): (&mut Rng, &mut Vec<String>) = ($rng, $log);
+/// all: everything mixed; the other modes isolate one property each, so that a failure is attributable
+/// failed: ONE round on a fresh object with failing calls in between        -> a failed call changes nothing
+/// drop:   2..5 rounds, same configuration, separated only by the dropped result -> the implicit reset is complete, accessors
+/// sizes:  rounds that change only shard_bytes by an explicit reset          -> nothing of the old shard size survives
+#[derive(Clone, Copy, PartialEq, Debug)]
+enum HMode { All, Failed, Drop, Sizes }
+const GAPCOUNTS: [(usize, usize); 5] = [(3, 5), (5, 3), (5, 7), (6, 3), (3, 6)];
+
+/// the configuration switch between two rounds (mode all): explicit reset, nothing (the dropped result has reset the object), or a move of the work space into another codec type
+macro_rules! history_of { ($T:ident, $round:ident, $rng:expr, $kind0:expr, $mode:expr, $log:expr, $rounds:expr) => {{
+    let (rng, log, mode): (&mut Rng, &mut Vec<String>, HMode) = ($rng, $log, $mode);
     let mut kind: Kind = $kind0;
     let mut cfg = pick_cfg(rng, None, kind);
+    if mode == HMode::Drop && rng.below(4) > 0 { let (k, r) = GAPCOUNTS[rng.below(GAPCOUNTS.len())]; if codec_ok(kind_codec(kind), k, r) { cfg = (k, r, cfg.2); } }
     log.push(format!("new{:?}", cfg));
     let mut obj = $T::new(kind, cfg, None).map_err(|e| format!("new returned {:?}", e))?;
     let mut clean = true;
-    for round in 0..2 + rng.below(5) {
-        if round > 0 {
-            if kind != Kind::Rs && rng.below(5) == 0 {
-                let nk = [Kind::Def, Kind::High, Kind::Low][rng.below(3)]; let ncfg = pick_cfg(rng, Some(cfg), nk);
-                log.push(format!("into_parts->{:?}::new{:?}", nk, ncfg));
-                obj = $T::new(nk, ncfg, Some(obj.into_work())).map_err(|e| format!("new with the old work space returned {:?}", e))?; kind = nk; cfg = ncfg;
-            } else {
-                let ncfg = if rng.below(4) == 0 { cfg } else { pick_cfg(rng, Some(cfg), kind) };
-                if ncfg != cfg || !clean || rng.below(3) == 0 { log.push(format!("reset{:?}", ncfg)); obj.reset(ncfg).map_err(|e| format!("reset returned {:?}", e))?; cfg = ncfg; } else { log.push("keep".into()); }
+    let nrounds = match mode { HMode::All | HMode::Sizes => 2 + rng.below(5), HMode::Failed => 1, HMode::Drop => 2 + rng.below(4) };
+    for round in 0..nrounds {
+        if round > 0 { match mode {
+            HMode::All => {
+                if kind != Kind::Rs && rng.below(5) == 0 {
+                    let nk = [Kind::Def, Kind::High, Kind::Low][rng.below(3)]; let ncfg = pick_cfg(rng, Some(cfg), nk);
+                    log.push(format!("into_parts->{:?}::new{:?}", nk, ncfg));
+                    obj = $T::new(nk, ncfg, Some(obj.into_work())).map_err(|e| format!("new with the old work space returned {:?}", e))?; kind = nk; cfg = ncfg;
+                } else {
+                    let ncfg = if rng.below(4) == 0 { cfg } else { pick_cfg(rng, Some(cfg), kind) };
+                    if ncfg != cfg || !clean || rng.below(3) == 0 { log.push(format!("reset{:?}", ncfg)); obj.reset(ncfg).map_err(|e| format!("reset returned {:?}", e))?; cfg = ncfg; } else { log.push("keep".into()); }
+                }
             }
-        }
-        clean = $round(rng, log, &mut obj, kind, cfg)?;
+            HMode::Sizes => { // another shard size, mostly with the same number of 64-byte blocks
+                let same: Vec<usize> = HSIZES.iter().copied().filter(|s| s.div_ceil(64) == cfg.2.div_ceil(64) && *s != cfg.2).collect();
+                let other: Vec<usize> = HSIZES.iter().copied().filter(|s| *s != cfg.2).collect();
+                cfg.2 = if !same.is_empty() && rng.below(4) > 0 { same[rng.below(same.len())] } else { other[rng.below(other.len())] };
+                log.push(format!("reset{:?}", cfg)); obj.reset(cfg).map_err(|e| format!("reset returned {:?}", e))?;
+            }
+            _ => log.push("keep".into()),
+        } }
+        let o = match mode {
+            HMode::All => HOpts { inject: 6, force: false, abandon: true, again: true, top: false },
+            HMode::Failed => HOpts { inject: 3, force: true, abandon: false, again: false, top: false },
+            HMode::Drop => HOpts { inject: 0, force: false, abandon: false, again: true, top: round == 0 },
+            HMode::Sizes => HOpts { inject: 0, force: false, abandon: false, again: false, top: false },
+        };
+        clean = $round(rng, log, &mut obj, kind, cfg, o)?;
         *$rounds += 1;
     }
     Ok(())
 }} }
-fn history(rng: &mut Rng, kind: Kind, dec: bool, log: &mut Vec<String>, rounds: &mut u64) -> Result<(), String> {
-    if dec { history_of!(Dec, dec_round, rng, kind, log, rounds) } else { history_of!(Enc, enc_round, rng, kind, log, rounds) }
+fn history(rng: &mut Rng, kind: Kind, dec: bool, mode: HMode, log: &mut Vec<String>, rounds: &mut u64) -> Result<(), String> {
+    if dec { history_of!(Dec, dec_round, rng, kind, mode, log, rounds) } else { history_of!(Enc, enc_round, rng, kind, mode, log, rounds) }
 }
 
-fn histories(n: usize) -> bool {
+fn histories(n: usize, mode: &str) -> bool {
+    let (mode, tag) = match mode { "failed" => (HMode::Failed, "histories-failed"), "drop" => (HMode::Drop, "histories-drop"), "sizes" => (HMode::Sizes, "histories-sizes"), _ => (HMode::All, "histories") };
     let mut master = Rng::new(seed()); let mut rounds = 0u64;
     for h in 0..n {
         let mut rng = Rng(master.next() | 1);
         let kind = [Kind::Rs, Kind::Def, Kind::High, Kind::Low][rng.below(4)]; let dec = rng.below(2) == 0;
         let layer = format!("{}{}", ["ReedSolomon", "DefaultRate", "HighRate", "LowRate"][kind as usize], if dec { "Decoder" } else { "Encoder" });
         let mut log: Vec<String> = vec![];
-        let res = std::panic::catch_unwind(std::panic::AssertUnwindSafe(|| history(&mut rng, kind, dec, &mut log, &mut rounds)));
+        let res = std::panic::catch_unwind(std::panic::AssertUnwindSafe(|| history(&mut rng, kind, dec, mode, &mut log, &mut rounds)));
         let what = match res { Ok(Ok(())) => continue, Ok(Err(m)) => m, Err(_) => "panic (message in the line above)".into() };
-        println!("FAIL histories {} history #{}: {} :: {}", layer, h, log.join(" "), what);
+        println!("FAIL {} {} history #{}: {} :: {}", tag, layer, h, log.join(" "), what);
         return false;
     }
-    println!("OK histories {} rounds over {} histories (bounded)", rounds, n);
+    println!("OK {} {} rounds over {} histories (bounded)", tag, rounds, n);
     true
 }
 
@@ -816,11 +869,11 @@ fn main() {
         Some("closedform") => { let w = a.get(2).map(|s| s.as_str()).unwrap_or("both"); let (k, r) = (num(3, 8), num(4, 8));
             (w == "low" || closedform(&f, true, k, r)) && (w == "high" || closedform(&f, false, k, r)) },
         Some("roundtrip") => roundtrip(num(3, 10)),
-        Some("engines") => engines(num(2, 100)),
+        Some("engines") => engines(num(2, 100), a.get(3).map(|s| s.as_str()).unwrap_or("all")),
         Some("sizes") => sizes(num(2, 130)),
         Some("oneshot") => oneshot(num(2, 300)),
         Some("linearity") => linearity(num(2, 100), &f),
-        Some("histories") => histories(num(2, 300)),
+        Some("histories") => histories(num(2, 300), a.get(3).map(|s| s.as_str()).unwrap_or("all")),
         Some("alloc") => alloc(num(2, 20)),
         _ => { println!("usage: vnative kernels|tables|closedform|roundtrip|engines|sizes|oneshot|linearity|histories|alloc|defects ..."); false }
     });
